@@ -225,7 +225,7 @@ def expireActs (opt : Bytes) (cur : Option Int) (ttl : Int) : Bool :=
 
 theorem expire_acts_iff (env : Env) (db : Db) (name k secs : Bytes) (optl : List Bytes) (s : Int) (e : Entry)
     (hlen : optl.length ≤ 1) (hs : parseI64 secs = some s) (hr : inI64 (env.now + s) = true)
-    (hopt : let o := lower (optl.headD []); o == [] || o == ofStr "nx" || o == ofStr "xx" || o == ofStr "gt" || o == ofStr "lt")
+    (hopt : let o := lower (optl.headD []); optl.isEmpty || o == ofStr "nx" || o == ofStr "xx" || o == ofStr "gt" || o == ofStr "lt")
     (hg : (checkTTL db env.now k).1.get k = some e) :
     cmdExpire env db (name :: k :: secs :: optl) =
       if expireActs (lower (optl.headD [])) e.exp (env.now + s)
